@@ -34,6 +34,7 @@ UNIT_DEPS = {
     'prim_mul': ['mul', 'conv'],
     'round': ['core', 'pow10', 'types', 'context'],
     'config': ['types'],
+    'prec': ['round', 'digits', 'context', 'add', 'core'],
     'div': ['core', 'digits', 'config', 'cmp', 'derived', 'conv'],
     'toint': ['core', 'scale', 'pow10', 'conv'],
     'digits': ['pow10', 'core'],
@@ -54,7 +55,7 @@ def closure(units):
     return seen
 
 
-FIX_COMMITS = []
+FIX_COMMITS = ['6dbd058 fix: with_prec rounds negative values symmetrically (C07)']
 NOTES = ('Contract-based deductive verification (Verus) of functions re-extracted from /repo on every run; '
          'see DESIGN.md.  exit 2 = undecided because of the machinery (never a violation).')
 
@@ -65,7 +66,7 @@ NOT_APPLICABLE = {
     'C13': 'statement about the real function e^x to one ulp; contracts here are integer-only and the Taylor loop has no termination measure (DESIGN.md section 7)',
     'C17': 'feature-gated code generic over foreign serde traits and strings; no contract within reach (DESIGN.md section 7)',
 }
-for _p in ['C02', 'C05', 'C07', 'C10', 'C11', 'C12', 'C14', 'C16', 'C19']:
+for _p in ['C02', 'C05', 'C10', 'C11', 'C12', 'C14', 'C16', 'C19']:
     NOT_APPLICABLE[_p] = _WIP
 
 _NOTE_COMMON = ('Assumed: num-bigint/num-traits/num-integer contracts (spec/shim_base.rs, vf/shimgen.py), std specs, '
@@ -90,6 +91,14 @@ prop('C06', units=['round', 'scale', 'context', 'config', 'core', 'pow10'], leve
                  'mode table for every digit pair, sign and tail flag; with_scale truncation equals rounding Down; round(n) uses the '
                  'configured default mode (symbolic constant); extension multiplies by the exact power of ten'),
      level_note=_NOTE_COMMON + ' round_u32 is not yet under contract.',
+     technique=_TECH)
+
+prop('C07', units=['prec', 'round', 'digits', 'context', 'config', 'add', 'core'], level='proof',
+     level_text=('Verus proves that with_precision_round returns the input rounded at its p-th significant digit under the given mode (new scale = s + p - digits with '
+                 'checked arithmetic that cannot fail under the scale bound; exact and zero-padded when the input has at most p digits), that Context::round_decimal, '
+                 'round_decimal_ref, BigDecimalRef::round_with_context, Context::add_refs / add_refs_into (exact sum, then rounded) forward to it with the precision and mode of the context '
+                 'and that with_prec(p) is the same operation under HalfUp for both signs (after the fix: commit)'),
+     level_note=_NOTE_COMMON + ' get_rounding_term / digits() rely on float axiom A1. Closures inside with_precision_round carry inline contracts; the tuple-pattern closure parameter is rewritten (R2).',
      technique=_TECH)
 
 prop('C08', units=['div', 'digits', 'core', 'config', 'pow10', 'derived'], level='proof',
